@@ -8,12 +8,25 @@
      thomas_backward_error_float_lemma : tsolve (A := AF) t r = Ok x, every x_i finite, every pivot finite, no
         product/quotient of the two sweeps in the subnormal range  ->  FR x solves a row-wise perturbed system
         exactly (3u, 5u, 5u, 9u with u = 2^-53), the statement of thomas_backward_error_lemma at binary64.
+     thomas_dominant_backward_stable_float_lemma : the same for strictly dominant matrices (margin (1+u)/(1-u)):
+        |dT| <= (3u|a|, 5u|b| + 9u|a|, 5u|c|).
+     pivots_from_data : for dominant matrices with |main_i| <= 2^300 and off-diagonal entries zero or >= 2^-300, every
+        pivot and multiplier is finite, bounded (|beta_k| <= 2^302, |gamma_k| <= 1) and free of underflow -- by
+        induction along the elimination IN THE FLOATS, from the data alone, for every size n.
+     thomas_dominant_solved_float_lemma : hence solve never refuses such a matrix, whatever the right-hand side.
+     thomas_dominant_float_partial_lemma : and a finite answer without subnormal product in the right-hand-side part is
+        backward stable.  PARTIAL with respect to "hypotheses on the data only": finiteness of the answer and absence
+        of underflow in the right-hand-side part (sub*y, num/beta, gamma*x) remain hypotheses (computable from t, r, x).
+        Proofs/Round2ThomasB.v removes the underflow hypothesis (absolute residual 2^-1075 per row) and, for matrices
+        dominant by the factor 2 with bounded right-hand side, the finiteness hypothesis as well.
 
    A finite answer alone is NOT enough: an overflowed pivot beta_k = inf gives gamma_{k+1} = c/inf = 0 and
-   y_k = num/inf = 0 silently, all later values are finite again.  What does follow from a finite answer: every
-   y_k and every multiplier gamma_k is finite (non-finite values are absorbing in x_k = y_k - gamma_{k+1} x_{k+1});
-   with finite pivots the whole trace is finite, no operation overflowed, every operation is the correctly rounded
-   exact one, and the trace maps under FR to a trace in the total standard-model arithmetic of RoundDotFloat.v. *)
+   y_k = num/inf = 0 silently, all later values are finite again ([thomas_finite_answer_hides_overflow] below is a
+   2x2 instance with answer [1; 0] where the true solution is near [1/2; 1/2]).  What does follow from a finite
+   answer: every y_k and every multiplier gamma_k is finite (non-finite values are absorbing in
+   x_k = y_k - gamma_{k+1} x_{k+1}); with finite pivots the whole trace is finite, no operation overflowed, every
+   operation is the correctly rounded exact one, and the trace maps under FR to a trace in the total standard-model
+   arithmetic of RoundDotFloat.v, to which backward_rows / multipliers_bounded of TridiagRound.v apply. *)
 From Coq Require Import ZArith Reals Lra Lia List Floats Bool Arith Psatz.
 From Flocq Require Import Core BinarySingleNaN PrimFloat Relative Plus_error.
 From OV Require Import Base.Panic Base.Arith Base.RoundModel Model.Vector Model.Matrix Model.Tridiag Inst.FloatInst
@@ -504,7 +517,8 @@ Proof.
   rewrite <- Eq. ring.
 Qed.
 
-(* ---------------------------------------------------------------- Theorem 2: dominant systems, the matrix part from the data *)
+(* ---------------------------------------------------------------- Theorem 2 (partial): dominant systems, the matrix part from the data.
+   Gap to a statement on the data only: the answer is assumed finite and the right-hand-side part free of underflow. *)
 Lemma thomas_dominant_solved_float_lemma (t : tridiag AF) (r : list pfloat) :
   wfT t -> (1 <= tn t)%nat -> length r = tn t -> tri_finite t -> tri_scaled t -> dominant_f t ->
   exists x, tsolve (A := AF) t r = Ok x /\ length x = tn t.
@@ -527,7 +541,7 @@ Proof.
     pose proof (feqb0_false _ Fb Nb) as Z'. cbn [sub mul AF eqb] in Ez. fl. rewrite Ez in Z'. discriminate.
 Qed.
 
-Theorem thomas_dominant_float_lemma (t : tridiag AF) (r : list pfloat) :
+Theorem thomas_dominant_float_partial_lemma (t : tridiag AF) (r : list pfloat) :
   wfT t -> (1 <= tn t)%nat -> length r = tn t -> tri_finite t -> tri_scaled t -> dominant_f t ->
   exists x, tsolve (A := AF) t r = Ok x /\ length x = tn t /\
     ((forall i, (i < tn t)%nat -> ffinite (nth i x 0%float)) -> thomas_nounder_rhs t r x ->
